@@ -20,8 +20,8 @@ VERIF = os.path.dirname(os.path.dirname(os.path.abspath(__file__)))
 LEAN_DIR = os.path.join(VERIF, "lean")
 MODEL_BIN = os.path.join(LEAN_DIR, ".lake", "build", "bin", "trie_model")
 REPO = os.environ.get("VERIF_REPO", "/repo")
-EVIDENCE_DIR = os.path.join(VERIF, "evidence")
-REPLAY_DIR = os.path.join(VERIF, "replays")
+EVIDENCE_DIR = os.environ.get("VERIF_EVIDENCE_DIR") or os.path.join(VERIF, "evidence")
+REPLAY_DIR = os.environ.get("VERIF_REPLAY_DIR") or os.path.join(VERIF, "replays")
 CORPUS_DIR = os.path.join(VERIF, "corpus")
 KNOWN_FINDINGS = os.path.join(VERIF, "known-findings.txt")
 NCPU = int(os.environ.get("VERIF_JOBS", str(min(16, os.cpu_count() or 1))))
